@@ -72,6 +72,7 @@ func main() {
 				}()
 				rep := core.NewReport(id, *tier)
 				rep.Prog = prog
+				checks.PrepareSeams(prog)
 				checks.Registry[id].Run(prog, rep)
 				return rep.Finish()
 			}()
@@ -141,6 +142,7 @@ func run(id, tier string) (code int) {
 	fmt.Printf("loaded %s: %d repository packages, %d functions, %d SSA instructions in %.1fs\n", prog.Dir, len(prog.Pkgs), prog.NFuncs, prog.NInstrs, prog.LoadSecs)
 	rep := core.NewReport(id, tier)
 	rep.Prog = prog
+	checks.PrepareSeams(prog)
 	chk.Run(prog, rep)
 	if tier == "thorough" && os.Getenv("SA_NO_THOROUGH_EXTRAS") == "" {
 		if !buildMatrix(id, chk, rep) {
@@ -174,6 +176,7 @@ func buildMatrix(id string, chk checks.Check, rep *core.Report) bool {
 					ok = false
 				}
 			}()
+			checks.PrepareSeams(prog)
 			chk.Run(prog, sub)
 			return true
 		}()
